@@ -481,7 +481,7 @@ VARIANTS = [
 
 META = {
     "design_ref": "DESIGN.md section 3, C07",
-    "technique": "call-graph option plumbing, path-condition guards at definition-affecting sites, producer/consumer key-form table extracted from the safe block, target-kind coverage of the unpacker",
+    "technique": "call-graph option plumbing, path-condition guards at definition-affecting sites, producer/consumer key-form table extracted from the safe block, target-kind coverage of the unpacker; recursion check of the target unpacker; generator-yields-its-argument summaries for module-level deletion",
     "level_text": ("Decides on the current source that safe/preserve reach every rule, that every definition-affecting site "
                    "tests a preserve key of its subject, that the safe block emits for every member class of the public "
                    "surface a key form the consumers test, and that all binding target kinds are unpacked. It does not "
